@@ -29,10 +29,10 @@ type mcWorld struct {
 	// OnReconnect is called in the client's thread right after it re-dialled.
 	OnReconnect func(client int)
 	// Background, if set, runs as one more thread next to the clients.
-	Background  func(w *mcWorld)
-	Port        string
-	clients     []*sched.Client
-	Notes       []string
+	Background func(w *mcWorld)
+	Port       string
+	clients    []*sched.Client
+	Notes      []string
 }
 
 func (w *mcWorld) body() {
